@@ -58,7 +58,8 @@ Inductive pyval :=
 | PTuple (l : list pyval)
 | PDict (kv : list (pyval * pyval)) (* keys are distinct in Python *)
 | PObj                              (* any other object *)
-| PRef (slot : nat).                (* an object of the module created earlier *)
+| PRef (slot : nat)                 (* an object of the module created earlier *)
+| PGen (l : list pyval).            (* a generator object yielding l: iterable, but without len() *)
 
 Definition f64_one : Z := 4607182418800017408.
 Definition f32_two : Z := 1073741824.
@@ -119,8 +120,14 @@ Definition iter_items (v : pyval) : option (list pyval) :=
   | PStr s => Some (map (fun c => PStr [c]) s)
   | PBytes bs => Some (map PInt bs)
   | PDict kv => Some (map fst kv)
+  | PGen l => Some l
   | _ => None
   end.
+
+(* a column of CountMatrix(values): `column.len()?` comes first, so an iterable without len()
+   (a generator) is a TypeError *)
+Definition col_items (v : pyval) : option (list pyval) :=
+  match v with PGen _ => None | _ => iter_items v end.
 
 (* ------------------------------------------------------------------ alphabets *)
 
@@ -409,7 +416,7 @@ Section Glue.
   Definition glue_count_init (values : pyval) (protein : option pyval) : outcome obj :=
     kv <~ extract_dict values ;;
     a <~ protein_flag protein ;;
-    d <~ cols_loop a iter_items extract_u32 (symbols a) 0 kv None ;;
+    d <~ cols_loop a col_items extract_u32 (symbols a) 0 kv None ;;
     match d with
     | None => PyExc ValueError
     | Some m => c <~ lift ValueError (c_count_new K a m) ;; Value (OCount a c)
